@@ -6,6 +6,8 @@ import (
 	"verif/dsim/props/c15"
 	"verif/dsim/props/c16"
 	"verif/dsim/props/c17"
+	"verif/dsim/props/c18"
+	"verif/dsim/props/c19"
 )
 
 func main() {
@@ -13,6 +15,8 @@ func main() {
 		"C15": c15.H{},
 		"C16": c16.H{},
 		"C17": c17.H{},
+		"C18": c18.Ring{},
+		"C19": c19.Ring{},
 	}
 	harness.Main(reg)
 }
